@@ -101,6 +101,10 @@ func (c *channel) newNodeStream(conn *grpc.ClientConn) error {
 	c.streamCtx, c.cancelStream = context.WithCancel(c.parentCtx)
 	c.gorumsClient = ordering.NewGorumsClient(conn)
 	c.gorumsStream, err = c.gorumsClient.NodeStream(c.streamCtx)
+	if err != nil {
+		// release the context: it would stay registered with parentCtx otherwise
+		c.cancelStream()
+	}
 	c.streamMut.Unlock()
 	if err != nil {
 		return err
@@ -347,6 +351,11 @@ func (c *channel) reconnect(maxRetries float64) {
 			// do nothing because stream is up
 			c.streamMut.Unlock()
 			return
+		}
+		// release the context of the broken stream: it would stay registered with
+		// parentCtx otherwise, one for every stream this channel has ever had
+		if c.cancelStream != nil {
+			c.cancelStream()
 		}
 		c.streamCtx, c.cancelStream = context.WithCancel(c.parentCtx)
 		var stream ordering.Gorums_NodeStreamClient
